@@ -56,7 +56,10 @@ class TimerMonitor:
                     self.last_accept[oid] = t
                     if h['flags'] & 0x20 and any(x[0] == oid and x[1].endswith('response') for x in rec.handlers):
                         r = self.req.get((oid, h['mid']))
-                        if r is not None:
+                        # a late copy of an INVALID_KE_PAYLOAD / COOKIE answer is looked at and ignored: it does not answer the repeated IKE_SA_INIT request
+                        stale_init = h['exch'] == 34 and oid in after and after[oid]['state'] == 'INIT_REQ_SENT' and r is not None and \
+                            all(bytes(x[2]) == r['bytes'] for x in rec.sent)     # (the timer sweep of the same iteration may retransmit the request as it is)
+                        if r is not None and not stale_init:
                             r['answered'] = t
         # ---- emissions
         for (src, dst, data) in rec.sent:
